@@ -3,5 +3,6 @@
 set -e
 cd /verif
 export CARGO_NET_OFFLINE=true
-(cd harness && cargo build --offline 2>&1 | tail -3)
-(cd lean && lake build driver 2>&1 | tail -3)
+(cd harness && cargo build --offline 2>&1 | tail -2)
+python3 tools/gen_tables.py >/dev/null
+(cd lean && lake build driver TlsModel 2>&1 | tail -3)
